@@ -620,14 +620,26 @@ pub fn clone_probe<const N: usize>(cfg: &HxCfg, g: &Sodg<N>, m: &Model, hist: &d
     fa.extend(drain_trace_owned(orig3, &keys, true));
     fa.push("--".to_string());
     fa.extend(next_ids_owned(orig4));
+    // and composed: everything is read (collections give ids back), THEN ids are handed out
+    if let Ok(mut o) = replay::<N>(cfg.cap, &h) {
+        fa.push("-- reads, then ids".to_string());
+        let _ = crate::hx::drain_trace_mut(&mut o, &keys, false);
+        fa.extend(next_ids_owned(o));
+    }
     let mut fb = vec![];
     match (guarded(|| c.clone()), guarded(|| c.clone()), guarded(|| c.clone())) {
         (Ok(c1), Ok(c2), Ok(c3)) => {
+            let c4 = guarded(|| c.clone());
             fb.extend(drain_trace_owned(c1, &keys, false));
             fb.push("--".to_string());
             fb.extend(drain_trace_owned(c2, &keys, true));
             fb.push("--".to_string());
             fb.extend(next_ids_owned(c3));
+            if let Ok(mut c4) = c4 {
+                fb.push("-- reads, then ids".to_string());
+                let _ = crate::hx::drain_trace_mut(&mut c4, &keys, false);
+                fb.extend(next_ids_owned(c4));
+            }
         }
         _ => fb.push("clone() of the clone panicked".to_string()),
     }
@@ -675,8 +687,10 @@ pub fn clone_probe<const N: usize>(cfg: &HxCfg, g: &Sodg<N>, m: &Model, hist: &d
                 ft.extend(next_ids_owned(t2));
             }
             // compare with the original's ascending drain and its next ids (computed above as parts of fa)
-            let asc: Vec<String> = fa.iter().take_while(|x| x.as_str() != "--").cloned().collect();
-            let ids_part: Vec<String> = fa.iter().rev().take_while(|x| x.as_str() != "--").cloned().collect::<Vec<_>>().into_iter().rev().collect();
+            // fa = ascending reads, "--", descending reads, "--", next ids, "-- reads, then ids", ...
+            let sections: Vec<Vec<String>> = fa.split(|x| x.starts_with("--")).map(<[String]>::to_vec).collect();
+            let asc: Vec<String> = sections.first().cloned().unwrap_or_default();
+            let ids_part: Vec<String> = sections.get(2).cloned().unwrap_or_default();
             let mut want = asc;
             want.push("--".to_string());
             want.extend(ids_part);
@@ -846,8 +860,19 @@ pub fn cuts_of_image<const N: usize>(bytes: &[u8], out: &mut Vec<Finding>, count
         return;
     }
     let Ok(file) = std::fs::OpenOptions::new().write(true).open(&f) else { return };
-    for k in (0..bytes.len()).rev() {
-        if k % 4096 == 0 {
+    // images up to 100 000 bytes: every prefix. Bigger ones (a store of thousands of slots): every
+    // prefix within the last and the first 8 KiB, the five lengths around every multiple of 4 KiB
+    // (block boundaries of buffered readers), and every 1021st length
+    let n = bytes.len();
+    let big = n > 100_000;
+    let positions: Vec<usize> = if big {
+        (0..n).rev().filter(|k| *k + 8192 >= n || *k < 8192 || (*k + 2) % 4096 <= 4 || *k % 1021 == 0).collect()
+    } else {
+        (0..n).rev().collect()
+    };
+    let npos = positions.len();
+    for (i, k) in positions.into_iter().enumerate() {
+        if i % 1024 == 0 {
             crate::inflight::progress();
         }
         if file.set_len(k as u64).is_err() {
@@ -865,8 +890,11 @@ pub fn cuts_of_image<const N: usize>(bytes: &[u8], out: &mut Vec<Finding>, count
             }
         }
     }
-    bump(counters, "cut_files_loaded", bytes.len() as u64);
+    bump(counters, "cut_files_loaded", npos as u64);
     bump(counters, "distinct_images_cut", 1);
+    if big {
+        bump(counters, "big_images_cut_at_selected_lengths", 1);
+    }
 }
 
 /// C19: the same history under another configuration / in a fresh object.
